@@ -259,3 +259,8 @@ def run(ck):
               "`%s` rewrites the parameter name / value before it is stored: the media type no longer has the parameter it was written with"
               % (touched[0].get("t") or "")[:70])
     lib.no_stale_static_rule(ck, "C18-R6", ('mime.cc',), "the media-type reader and writer")
+
+    # ---------------- R7: a MediaType is a self-contained value ----------------
+    lib.self_view_rule(ck, "C18-R7", ["Pistache::Http::Mime::MediaType"],
+                       "a parsed MediaType is handed around by value (header objects, vectors of accepted types)")
+
